@@ -6,6 +6,7 @@ from guards import block_facts, unref
 from terms import fmt, subterms
 from roles import place_path
 from facts import adt_of
+import r_m1
 
 SELF_DISPATCH = {"next_id_and_value": "fetch_one", "next_chunk": "fetch_n", "skip_to_end": "early_exit"}
 MAPPERS = ("Option::cloned", "Option::copied", "Iterator::cloned", "Iterator::copied")
@@ -218,7 +219,15 @@ def rule_fwd(env, shared):
                 dd = F.trait_default(tr, mname)
                 # defaults that are themselves written in terms of other (forwarded) methods of Self only are fine when no
                 # base implementor overrides them
-                if overriding:
+                if overriding and tr == R.T_ATOMIC and mname in ("fetch_one", "fetch_n") and dd is not None and any(
+                        u.world["iter"] == adt and u.body.def_ == dd for u in r_m1._m1(env).units):
+                    # a pull entry point: what runs for the adaptor is the provided body over the adaptor's own (forwarded)
+                    # primitives, and that body is analysed as the pull unit of every world of this adaptor by the unit rules
+                    # (PROV / AMT / TICKET / GATE / LIVE / DONE ..) — an implementor that overrides the entry point for itself
+                    # changes nothing for the adaptor
+                    out.append(Ob("FWD.cover", k, "ok", "-", "the provided `%s` is the adaptor's pull unit (analysed per world)"
+                                  % mname))
+                elif overriding:
                     out.append(Ob("FWD.cover", k, "viol", "-",
                                   "%s does not forward `%s` although %s override(s) it: through the adaptor the trait's default "
                                   "body runs instead of the underlying iterator's own implementation" % (
